@@ -415,6 +415,11 @@ def rule_x(repo, run):
     # an argument by reference is a pointer in the C wrapper: how the wrapper reaches the C++ object (C02.R12)
     import_rules(run, R, c02_, repo, {"C02.R12"}, only=lambda c: c.startswith("wrapc.compute_c_deref"))
     import_rules(run, R, c10, repo, {"C10.R2", "C10.R5"})
+    # the buffer handed to the library for a character intent(inout) argument has the capacity of the caller's variable
+    # (C10.R1, the `retcap` obligations of the allocating helpers): what the library writes comes back whole
+    import_rules(run, R, c10, repo, {"C10.R1"}, only=lambda c: ":retcap:" in c)
+    # an intent(inout) argument that the wrapper copies (std::vector, std::string) is initialised from the caller's value (C02.R11)
+    import_rules(run, R, c02_, repo, {"C02.R11"}, only=lambda c: ":copy[" in c)
     import_rules(run, R, c08, repo, {"C08.R3", "C08.R4"}, only=lambda c: not c.startswith("wrapp."))
     # enumerators are passed as argument values: the Fortran parameters must carry the C++ values (C11.R1, C11.R2)
     from checks import c11
@@ -442,6 +447,54 @@ def rule_x(repo, run):
                           % (m.seg(guard.test) if guard is not None else ""), m.loc(a))
 
 
+
+def _dnf(e):
+    """disjunctive normal form of a boolean expression: list of lists of atom texts"""
+    if isinstance(e, ast.BoolOp) and isinstance(e.op, ast.Or):
+        out = []
+        for v in e.values:
+            out.extend(_dnf(v))
+        return out
+    if isinstance(e, ast.BoolOp) and isinstance(e.op, ast.And):
+        out = [[]]
+        for v in e.values:
+            out = [a + b for a in out for b in _dnf(v)]
+        return out
+    return [[ast.unparse(e)]]
+
+
+def rule_r9(repo, run):
+    R = run.rule("C01.R9", "a bind(C) interface is declared PURE only for what the declaration says is free of side effects: "
+                           "`+pure`, or a const method all of whose arguments are intent(in) - a compiler may merge or drop "
+                           "repeated calls of a pure function, so every other call must reach the library")
+    wf = repo.module("wrapf")
+    fn = wf.func("Wrapf.wrap_function_interface")
+    sets = [a for a in ast.walk(fn) if isinstance(a, ast.Assign) and isinstance(a.targets[0], ast.Attribute)
+            and a.targets[0].attr == "F_C_pure_clause" and (pyflow.const_str(a.value) or "").strip() == "pure"]
+    if len(sets) != 1:
+        raise AnalysisError("C01.R9: the assignment of F_C_pure_clause in wrap_function_interface was not found")
+    conj = [[]]
+    for t, pol in pyflow.dominating_tests(sets[0], stop=fn):
+        if pol:
+            conj = [a + b for a in conj for b in _dnf(t)]
+    # names: where do is_pure / func_is_const come from
+    src = {}
+    for a in ast.walk(fn):
+        if isinstance(a, ast.Assign) and len(a.targets) == 1 and isinstance(a.targets[0], ast.Name):
+            src.setdefault(a.targets[0].id, ast.unparse(a.value))
+    def licensed(atoms):
+        for at in atoms:
+            v = src.get(at, at)
+            if re.search(r"attrs\[['\"]pure['\"]\]|\.func_const\b", v):
+                return True
+        return False
+    bad = [c for c in conj if not licensed(c)]
+    run.check(R, "wrapf.Wrapf.wrap_function_interface:pure", not bad,
+              "the interface is declared PURE when %s: neither `+pure` nor the constness of the method is part of that case, so the "
+              "calls of a stateful function (a counter, a generator) may be merged by the Fortran compiler"
+              % " and ".join(bad[0] if bad else []), wf.loc(sets[0]), sample=dict(cases=conj))
+
+
 def run(repo, run, tier):
     tables.check_model_assumptions(repo)
     table = tables.StatementTable(repo, "statements", "fc_statements")
@@ -453,3 +506,4 @@ def run(repo, run, tier):
     rule_r6(repo, run)
     rule_r7(repo, run)
     rule_x(repo, run)
+    rule_r9(repo, run)
